@@ -299,8 +299,13 @@ let cmd_aligns h1 t1 h2 t2 lm rm =
          { ht_head = z_of_string h2; ht_tape = tape_of_field t2 }
          (z_of_string lm) (z_of_string rm))
 
+let cmd_ops prog n =
+  String.concat ";" (List.map (fun ((sh, co), sk) -> b2s sh ^ "," ^ string_of_n co ^ "," ^ b2s sk)
+                       (quick_ops_init (comp_of_text prog) (n_of_string n)))
+
 let dispatch (fields : string list) : string =
   match fields with
+  | ["ops"; prog; n] -> cmd_ops prog n
   | ["tape"; mode; tp; ops] -> cmd_tape mode tp ops
   | ["quick"; prog; lim] -> cmd_quick prog lim
   | ["ref"; prog; lim] -> cmd_ref prog lim
